@@ -320,6 +320,7 @@ impl EyeExt for DenseMatrix<f64> {
 pub fn property() -> Property {
     Property {
         id: "C17",
+        quick_mult: 100,
         rule: "triples of vectors of length 1..30 (random dyadic, equal, one-coordinate differences, collinear, small integers), scaled by 2^k with k drawn over the whole range in which |d|^p*len stays finite and normal for the type under test (computed per case), p in 1..8; Hamming on integer vectors over alphabets of 2..5 symbols; Mahalanobis from SPD covariances Q diag(l) Q^T (cond <= 1e4, f32: 1e2), the identity, and from constructed full-rank data (centred part = Helmert * orthonormal * diag(s) * V^T). non-trivial = length >= 2 and the three points are not collinear (Hamming: pairwise different); distinct = distinct serialised case",
         assumptions: vec![
             "Hamming distance is the fraction of differing positions (the definition the module documents)".into(),
